@@ -23,12 +23,14 @@ GOALS = {'quick': ['falsy value possible', 'partial query',
                    'history inserted out of time order',
                    'queried variable missing at one time',
                    'two rows emitted for one time',
-                   'variable appearing under a store that was empty at first'],
+                   'variable appearing under a store that was empty at first',
+                   'hash-equal values of different types'],
          'thorough': ['falsy value possible', 'partial query',
                       'history inserted out of time order',
                       'queried variable missing at one time',
                       'two rows emitted for one time',
-                      'variable appearing under a store that was empty at first']}
+                      'variable appearing under a store that was empty at first',
+                      'hash-equal values of different types']}
 STUBS = ['RAMEmitter.saved_data filled directly with raw data (the accessors '
          'under test read it; no orjson boundary crossed); the emit-same-time '
          'job goes through the real RAMEmitter.emit (values concretised by '
@@ -64,6 +66,7 @@ def jobs(tier):
                         budget_s=100 if tier == 'quick' else 600))
     out.append(dict(name='emit-same-time', part='emit', budget_s=100))
     out.append(dict(name='late-variable', part='late', budget_s=60))
+    out.append(dict(name='types-kept', part='types', budget_s=60))
     return out
 
 
@@ -78,6 +81,8 @@ def body(ctx, cfg):
         return emit_merge(ctx, cfg)
     if cfg.get('part') == 'late':
         return late_variable(ctx, cfg)
+    if cfg.get('part') == 'types':
+        return types_kept(ctx, cfg)
     paths = SHAPES[cfg['shape']]
     # insertion order of the raw data: ascending (what the engine produces),
     # descending or rotated (merged / late data); alignment is claimed by
@@ -241,6 +246,42 @@ def emit_merge(ctx, cfg):
             get_in(ts, ('a', 'x'), []), ts.get('time', []))]),
         sig='aligned-after-same-time-rows',
         info=lambda: dict(rows=rows, timeseries=ts))
+
+
+def types_kept(ctx, cfg):
+    """Concrete values (chosen by forking, nothing symbolic: hash-equal values
+    of different types are the point): 0 / False / 0.0, 1 / True / 1.0 and
+    2 / 2.0 in one history come back from every view with their own types."""
+    orders = [[False, 0, 0.0], [0.0, False, 0], [0, 0.0, False]]
+    first = orders[ctx.choice('order', 3)]
+    data = {0: {'s': {'a': first[0], 'b': first[1], 'c': first[2]}},
+            1: {'s': {'a': True, 'b': 1, 'c': 1.0}},
+            2: {'s': {'a': False, 'b': 2, 'c': 2.0}}}
+    em = RAMEmitter({})
+    em.saved_data = copy.deepcopy(data)
+    views = {'timeseries': em.get_timeseries(),
+             'deserialized': em.get_data_deserialized(),
+             'query': em.get_data([('s', 'a'), ('s', 'b'), ('s', 'c')])}
+    ok = []
+    for k in 'abc':
+        want = [data[t]['s'][k] for t in (0, 1, 2)]
+        got = get_in(views['timeseries'], ('s', k), [])
+        ok.append(len(got) == 3 and all(
+            type(g) is type(w) and g == w for g, w in zip(got, want)))
+        for name in ('deserialized', 'query'):
+            for i, t in enumerate((0, 1, 2)):
+                g = get_in(views[name].get(t, {}), ('s', k), 'missing')
+                ok.append(type(g) is type(want[i]) and g == want[i])
+    pts = em.get_path_timeseries()
+    for k in 'abc':
+        want = [data[t]['s'][k] for t in (0, 1, 2)]
+        got = pts.get(('s', k), [])
+        ok.append(len(got) == 3 and all(
+            type(g) is type(w) and g == w for g, w in zip(got, want)))
+    ctx.goal('hash-equal values of different types')
+    ctx.claim('C18.roundtrip', all(ok), sig='types-kept',
+              info=lambda: dict(data=data, views={k: repr(v) for k, v in
+                                                  views.items()}))
 
 
 def late_variable(ctx, cfg):
